@@ -15,6 +15,9 @@ def main() -> int:
     tier = 'quick'
     if '--tier' in args:
         i = args.index('--tier'); tier = args[i + 1]; del args[i:i + 2]
+    keep = None
+    if '--keep-replays' in args:
+        i = args.index('--keep-replays'); keep = args[i + 1]; del args[i:i + 2]
     props = args
     wt = tempfile.mkdtemp(prefix='mut', dir='/tmp')
     os.rmdir(wt)
@@ -40,6 +43,10 @@ def main() -> int:
             for l in lines[:14]: print('   ', l[:400])
             if r.returncode not in (0, 1):
                 print(r.stdout[-1500:], r.stderr[-1500:])
+            if keep and os.path.isdir(scratch + '/replay/' + prop):
+                os.makedirs(os.path.join(keep, prop), exist_ok=True)
+                for f in sorted(os.listdir(scratch + '/replay/' + prop))[:3]:
+                    shutil.copy(os.path.join(scratch, 'replay', prop, f), os.path.join(keep, prop, os.path.basename(patch).replace('.patch', '') + '-' + f))
     finally:
         subprocess.run(['git', '-C', '/repo', 'worktree', 'remove', '--force', wt], capture_output=True)
         shutil.rmtree(wt, ignore_errors=True)
